@@ -150,6 +150,24 @@ func (w *c07world) showDoc(d *gedcom.Document) string {
 	return fmt.Sprintf("[ids=%s text=%s ptr=%s fams=%s]", c07nats(ids), hexs(text.String()), c07nats(look), c07nats(fams))
 }
 
+// c07views: for every individual of every document, its Families() and Spouses() by object identity
+func c07views(w *c07world) string {
+	var sb strings.Builder
+	for k, d := range w.docs {
+		for _, ind := range d.Individuals() {
+			fmt.Fprintf(&sb, "%d/%s:", k, w.id(ind))
+			for _, f := range ind.Families() {
+				sb.WriteString(" f" + w.id(f))
+			}
+			for _, sp := range ind.Spouses() {
+				sb.WriteString(" s" + w.id(sp))
+			}
+			sb.WriteString("; ")
+		}
+	}
+	return sb.String()
+}
+
 func c07copySeq(c *Ctx, i int) {
 	r := c.R
 	w := &c07world{ids: map[gedcom.Node]int{}}
@@ -190,18 +208,23 @@ func c07copySeq(c *Ctx, i int) {
 	type event struct {
 		src gedcom.Node
 		cp  gedcom.Node
+		fil string
 	}
+	filterPool := []string{"NAME", "BIRT", "DATE", "HUSB", "WIFE", "CHIL", "NOTE", "MARR", "RESI", "EVEN", "FAMS", "_UID", "TITL"}
 	var events []event
 	var obs []string
 	var opsText []string
 	nops := 1 + r.Intn(5)
 	var last [3]int
+	lastFil := "-"
 	for o := 0; o < nops; o++ {
 		// candidate source: an object that currently lives in a document (records added by earlier
 		// copies included); one time in three the previous operation again (copying twice)
 		var srcDoc, node, dst int
+		fil := "-" // "-" = DeepCopy, "w:…" / "b:…" = Filter with Whitelist / BlacklistTagFilter
 		if o > 0 && r.Chance(1, 3) {
 			srcDoc, node, dst = last[0], last[1], last[2]
+			fil = lastFil
 			if r.Bool() {
 				dst = r.Intn(nd)
 			}
@@ -235,15 +258,67 @@ func c07copySeq(c *Ctx, i int) {
 			c.Count("copydoc:source-moved")
 			continue
 		}
+		if fil == "-" && !(o > 0 && lastFil == "-" && last == [3]int{srcDoc, node, dst}) && r.Chance(1, 3) {
+			var tags []string
+			white := r.Bool()
+			k := r.Intn(3)
+			if white {
+				tags = append(tags, n.Tag().Tag())
+				k = 3 + r.Intn(6)
+			}
+			for ; k > 0; k-- {
+				tags = append(tags, r.Pick(filterPool))
+			}
+			var hx []string
+			for _, t := range tags {
+				hx = append(hx, hexs(t))
+			}
+			fil = map[bool]string{true: "w:", false: "b:"}[white] + strings.Join(hx, ",")
+		}
+		var ftags []string
+		var keep func(string) bool
+		if fil != "-" {
+			if fil[2:] != "" {
+				for _, h := range strings.Split(fil[2:], ",") {
+					ftags = append(ftags, unhex(h))
+				}
+			}
+			white := fil[0] == 'w'
+			keep = func(tag string) bool {
+				in := false
+				for _, t := range ftags {
+					if t == tag {
+						in = true
+					}
+				}
+				return in == white
+			}
+			// Filter asks every kept role node for its own family: it must be the record (model: ctxOf)
+			bad := false
+			for _, x := range c07preorderNodes(gedcom.Nodes{n}) {
+				if fn, isRole := x.(gedcom.FamilyNoder); isRole && gedcom.Node(fn.Family()) != rec {
+					bad = true
+				}
+			}
+			if bad {
+				c.Count("copydoc:family-outside-record")
+				continue
+			}
+		}
 		// the family the walk falls back on must be the FAM record the node lives in (model: ctxOf)
 		if ctx, ok := c07ctx(n, w.ids); !ok || (ctx != "-" && ctx != w.id(rec)) {
 			c.Count("copydoc:family-outside-record")
 			continue
 		}
 		last = [3]int{srcDoc, node, dst}
-		opsText = append(opsText, fmt.Sprintf("DeepCopy(object %d of document %d = %q, document %d)", node, srcDoc, strings.TrimSpace(strings.SplitN(n.GEDCOMString(0), "\n", 2)[0]), dst))
+		lastFil = fil
+		call := "DeepCopy"
+		if fil != "-" {
+			call = map[byte]string{'w': "Filter[WhitelistTagFilter(", 'b': "Filter[BlacklistTagFilter("}[fil[0]] + strings.Join(ftags, ",") + ")]"
+		}
+		opsText = append(opsText, fmt.Sprintf("%s(object %d of document %d = %q, document %d)", call, node, srcDoc, strings.TrimSpace(strings.SplitN(n.GEDCOMString(0), "\n", 2)[0]), dst))
 		in["operations"] = strings.Join(opsText, "; ")
-		fmt.Fprintf(&req, " %d %d %d", srcDoc, node, dst)
+		fmt.Fprintf(&req, " %d %d %d %s", srcDoc, node, dst, fil)
 		// state before
 		type snap struct {
 			recs gedcom.Nodes
@@ -259,11 +334,47 @@ func c07copySeq(c *Ctx, i int) {
 		}
 		srcText := n.GEDCOMString(0)
 		dstDoc := w.docs[dst]
-		cp, panicked := c07copy(n, dstDoc)
+		viewsBefore := c07views(w)
+		var cp gedcom.Node
+		var panicked bool
+		var want *TNode
+		if fil == "-" {
+			cp, panicked = c07copy(n, dstDoc)
+		} else {
+			want = c07prune(abstractNode(n), keep)
+			var gtags []gedcom.Tag
+			for _, t := range ftags {
+				gtags = append(gtags, gedcom.TagFromString(t))
+			}
+			fn := gedcom.BlacklistTagFilter(gtags...)
+			if fil[0] == 'w' {
+				fn = gedcom.WhitelistTagFilter(gtags...)
+			}
+			panicked = func() (p bool) {
+				defer func() {
+					if x := recover(); x != nil {
+						p = true
+					}
+				}()
+				cp = gedcom.Filter(n, dstDoc, fn)
+				return false
+			}()
+		}
 		c.Eval()
 		if panicked {
 			obs = append(obs, "[panic]")
-			c.Oracle("", "DeepCopy panics for a node of a decoded document", in, "panic", "a copy")
+			c.Oracle("", "DeepCopy / Filter panics for a node of a decoded document", in, "panic", "a copy")
+			continue
+		}
+		if gedcom.IsNil(cp) {
+			obs = append(obs, "[noop]")
+			c.Count("copydoc:op:filter=nil")
+			if fil == "-" || want != nil {
+				c.Oracle("", "DeepCopy / Filter returned nil for a node whose tag is kept", in, "nil", "a copy")
+			}
+			if va := c07views(w); va != viewsBefore {
+				c.Oracle("", "a Filter call that returned nil changed a document", in, va, viewsBefore)
+			}
 			continue
 		}
 		first := len(w.objs)
@@ -317,14 +428,21 @@ func c07copySeq(c *Ctx, i int) {
 		}
 		obs = append(obs, fmt.Sprintf("[ok first=%d n=%d fresh=%s t=%s fam=%s doc=%s added=%d]", first, len(cpNodes), bit(fresh),
 			encTree(abstractNode(cp)), c07nats(fam), c07nats(docs), added))
-		c.Count(fmt.Sprintf("copydoc:op:%s same=%v added=%d", n.Tag().Tag(), srcDoc == dst, added))
-		c.Nontrivial(fmt.Sprintf("copydoc/%s/same=%v/added=%d/roles=%d/op=%d", n.Tag().Tag(), srcDoc == dst, added, len(fam), o))
+		kind := "copy"
+		if fil != "-" {
+			kind = "filter-" + fil[:1]
+		}
+		c.Count(fmt.Sprintf("copydoc:op:%s:%s same=%v added=%d", kind, n.Tag().Tag(), srcDoc == dst, added))
+		c.Nontrivial(fmt.Sprintf("copydoc/%s/%s/same=%v/added=%d/roles=%d/op=%d", kind, n.Tag().Tag(), srcDoc == dst, added, len(fam), o))
 		// (S) the clauses of the property, on the implementation
 		if !fresh {
 			c.Oracle("", "a deep copy shares a node with a document or an earlier copy", in, "shared node", "only new nodes")
 		}
-		if cp.GEDCOMString(0) != srcText || !gedcom.DeepEqual(n, cp) || !gedcom.DeepEqual(cp, n) {
+		if fil == "-" && (cp.GEDCOMString(0) != srcText || !gedcom.DeepEqual(n, cp) || !gedcom.DeepEqual(cp, n)) {
 			c.Oracle("", "a deep copy is not deep-equal to / serialises differently from its source", in, cp.GEDCOMString(0), srcText)
+		}
+		if fil != "-" && (want == nil || c07text(want) != c07text(abstractNode(cp))) {
+			c.Oracle("", "Filter with a tag filter did not return the tree without the subtrees of the rejected tags", in, c07text(abstractNode(cp)), fmt.Sprint(want != nil))
 		}
 		for k, d := range w.docs {
 			now := d.Nodes()
@@ -348,8 +466,13 @@ func c07copySeq(c *Ctx, i int) {
 				}
 			}
 		}
+		// what the individuals of every document know about their families and spouses (cached views,
+		// warm before the copy) is unchanged: the records a copy adds are empty families
+		if va := c07views(w); va != viewsBefore {
+			c.Oracle("", "copying changed the families / spouses of an individual of a document", in, va, viewsBefore)
+		}
 		for _, e := range events {
-			if e.src != n {
+			if e.src != n || e.fil != fil {
 				continue
 			}
 			c.Count("copydoc:copied-twice")
@@ -365,7 +488,7 @@ func c07copySeq(c *Ctx, i int) {
 				}
 			}
 		}
-		events = append(events, event{n, cp})
+		events = append(events, event{n, cp, fil})
 	}
 	if len(obs) == 0 {
 		return
@@ -395,10 +518,19 @@ func c07copySeq(c *Ctx, i int) {
 			c.Oracle("", "after copying into a document its Families() does not list its FAM records", in,
 				fmt.Sprintf("document %d: %d families", k, len(got)), fmt.Sprintf("%d FAM records", len(fams)))
 		}
-		for p, rec := range lastByPtr {
-			if d.NodeByPointer(p) != rec {
-				c.Oracle("", "after copying into a document NodeByPointer does not find the record stored last under a pointer", in,
-					fmt.Sprintf("document %d pointer %s", k, p), "the last record with that pointer")
+		// (which of several records sharing a pointer is found is the model's business — the tie —,
+		// not the property's: here only "a record of this document with that pointer")
+		for p := range lastByPtr {
+			got := d.NodeByPointer(p)
+			ok := false
+			for _, rec := range d.Nodes() {
+				if rec == got && rec.Pointer() == p {
+					ok = true
+				}
+			}
+			if !ok {
+				c.Oracle("", "after copying into a document NodeByPointer does not find a record of the document under a pointer that one of its records has", in,
+					fmt.Sprintf("document %d pointer %s", k, p), "a record with that pointer")
 			}
 		}
 	}
